@@ -84,6 +84,17 @@ def stepC17 (s : DSt) (op : String) (got : String) : StepResult DSt :=
          { st := s, expected := (if got.startsWith "ok" then some got else some "ok"), spec := spec,
            cov := [match frames with | some 1 => "send:whole" | some 0 => "send:dropped" | some _ => "send:fragmented" | none => "send:other"] })
     | _, _ => { st := s, expected := some "bad-op" }
+  | ["send", face, size, _toklen] =>
+    -- the same with a PIT token of the given length (1..32 bytes): a header that leaves no room for payload on a
+    -- small accepted MTU is a legitimate drop; the daemon has to survive it
+    match face.toNat?, size.toNat? with
+    | some fid, some _ =>
+      (match faceGet s.st.faces fid with
+       | none => { st := s, expected := some "noface", spec := crashFail op got, cov := ["send:noface"] }
+       | some _ =>
+         { st := s, expected := (if got.startsWith "ok" then some got else some "ok"), spec := crashFail op got,
+           cov := ["send:token-length"] })
+    | _, _ => { st := s, expected := some "bad-op" }
   | ["close", face] =>
     match face.toNat? with
     | none => { st := s, expected := some "bad-op" }
